@@ -76,6 +76,9 @@ VORO_SETS = [
     [[0, 0], [6, 1], [1, 5], [5, 6], [3, 3], [2, 1]],
     [[1, 0], [5, 2], [0, 3], [4, 5], [2, 2], [6, 6], [3, 0]],
     [[0, 0], [3, 0], [0, 2], [3, 3]],
+    [[0, 0], [8, 1], [2, 3], [6, 4], [4, 2]],            # wider than high
+    [[0, 0], [2, 7], [1, 3], [3, 5], [2, 1], [0, 6]],    # higher than wide
+    [[1, 1], [7, 0], [4, 3], [0, 2], [6, 2]],
 ]
 
 
@@ -286,10 +289,10 @@ def gen_cases(rng, tier):
     _warm()
     cases = []
     classes = list(CLASSES)
-    n = 900 if tier == "quick" else 12000
+    n = 1800 if tier == "quick" else 20000
     for i in range(n):
         cases.append(_gen_case(rng, classes[i % len(classes)] if i < 4 * len(classes) else None))
-    for _ in range(200 if tier == "quick" else 2500):
+    for _ in range(400 if tier == "quick" else 4000):
         cases.append(_gen_pure_case(rng, 12))
     # exhaustive small signatures x parameter subsets, checked AND really called (model-evaluated)
     keys = ["a", "kwargs", "options", "b"]
@@ -300,7 +303,7 @@ def gen_cases(rng, tier):
         c["ops"] = uni[i:i + 40]
         cases.append(c)
     # default spring layout: oracle only
-    for _ in range(12 if tier == "quick" else 150):
+    for _ in range(20 if tier == "quick" else 200):
         c = _gen_case(rng, rng.choice(["NetworkGrid", "Network"]), 8)
         c["space"]["spring"] = True
         cases.append(c)
